@@ -21,6 +21,11 @@ CHECKS = {
  "C17": "Model of CronSchedule::next written with the same DateTime operations as the code (proved in C04/C05/C09) and compared with /repo under a pinned clock (hook H1) on histories of calls; every observed result is additionally checked inside Coq to be the least matching minute after max(clock, previous result) by an independent day-level oracle built from the C16 specification. Theorems in props/C17.v (see file header for what is proved).",
  "C18": "Model of the TZif reader (header, data blocks, footer POSIX-TZ parser, rule dates, lookup) compared with /repo through hook H2 on real zone files (expected offsets from CPython's zoneinfo) and on synthesized v1/v2/v3 files (expected offsets from TzSpec.spec_lookup on the generating AST); theorems in props/C18.v relate the model's lookup to the specification (see file header for the proved part).",
  "C19": "Model of the TZif reader compared with /repo on structure-aware mutations and hostile footers (outcome class error / offsets / panic); theorems in props/C19.v: the parser returns Ok or Err for every byte string and lookups on an accepted file never panic (see file header).",
+ "C11": "Model of parse_format_string / format_*_part / the three format() methods compared with /repo, and every observed output compared inside Coq with PatternSpec.render, the documented symbol table written as data (items -> text), on patterns generated from the item grammar; theorems in props/C11.v (see file header for the proved part).",
+ "C12": "Model of the consume-from-the-front parsers and field assembly compared with /repo on format -> parse -> format round trips over the unambiguous-pattern grammar; the oracle checks string identity and, for full date + time + zone patterns, instant and offset identity; theorems in props/C12.v (see file header).",
+ "C13": "Model of parse_rfc3339 / parse_offset / format_rfc3339 compared with /repo; outputs checked against RfcSpec (ABNF recogniser + denotation) for all precisions, inputs generated from the ABNF with 1..40 fraction digits and field mutations; theorems in props/C13.v (see file header).",
+ "C14": "Model with every unwrap / index / slice of the text code explicit (Panic outcome) compared with /repo on a slice of the exhaustive small-string product and on mutated composite patterns; theorems in props/C14.v (see file header).",
+ "C20": "Display / FromStr / serde (through serde_json) compared with the model instances of format / parse / RFC 3339 and with the documented text forms; theorems in props/C20.v (see file header).",
  "C08": "Coq theorems (props/C08.v): every Time reachable through any list of public operations stays inside [0, 24 h) (induction over the operation list), add_/sub_/operators compute (t +/- amount) mod 24 h keeping the offset, constructors accept exactly in-day values, equal fields imply equal values. Tied to /repo by a differential run.",
 }
 def chk(pid, text):
@@ -31,7 +36,7 @@ def chk(pid, text):
             "level_note": NOTE, "technique": TECH}
 NA = {
 }
-PENDING = ["C11","C12","C13","C14","C20"]
+PENDING = []
 m = {
  "version": 1,
  "setup_cmd": "./setup.sh",
